@@ -32,12 +32,13 @@ for d in sorted(os.listdir(os.path.join(V, "seeded"))):
         continue
     pid = d.split("-")[0]
     meta = {"property": pid, "origin": "sub-agent given only the property text and a scratch worktree" if d.endswith("-a") else
-            "sub-agent (round 2) given the property text, a scratch worktree and a one-paragraph description of the first seed to steer it elsewhere" if d.endswith("-b") else "reverse patch of a fix: commit"}
+            "sub-agent (round 2) given the property text, a scratch worktree and a one-paragraph description of the first seed to steer it elsewhere" if d.endswith("-b") else
+            "sub-agent (round 3, prompt from tools/mkprompt.py) given the property text with quantifier and anchors, a scratch worktree and one paragraph per earlier seed of the property to steer it elsewhere" if d.endswith("-c") else "reverse patch of a fix: commit"}
     notes = os.path.join(sd, "NOTES.md")
     if os.path.exists(notes):
         t = open(notes).read()
-        meta["change"] = section(t, "The change")
-        meta["needs_to_manifest"] = section(t, "What it needs to manifest")
+        meta["change"] = section(t, "The change") or " ".join(re.sub(r"^#[^\n]*\n", "", t.strip()).split("\n\n")[0].split())[:900]
+        meta["needs_to_manifest"] = section(t, "What it needs to manifest") or section(t, "What it needs")
     if d in HAND:
         meta["change"] = HAND[d]["change"]; meta["needs_to_manifest"] = HAND[d]["needs"]; meta["also_caught_by"] = HAND[d]["also"]
     meta["patch"] = "patch.rebased.diff (the agent's patch.diff no longer applies after later fix: commits; same change, same lines)" if os.path.exists(os.path.join(sd, "patch.rebased.diff")) else "patch.diff"
